@@ -103,6 +103,17 @@ def pipeline(prop, tier, fam):
                     distinct.add(vlib.fingerprint(fam.get("key", lambda e: e)(ev)))
         log("trace %s: %d events, %d unexplained" % (source, n, len(bad)))
 
+    # events the trace spec itself classified as instances of a known finding: suppressed only if
+    # /verif/known_findings.json lists that finding (status "known") for this property
+    kf_id = fam.get("known_finding_id")
+    nkf = len(vlib.KF_EVENTS)
+    if nkf:
+        listed = [f for f in vlib.load_known() if f.get("status") == "known" and f.get("property") == prop and f.get("id") == kf_id]
+        if listed:
+            print("KNOWN-FINDING: property=%s %s (%d events)" % (prop, listed[0]["what"], nkf), flush=True)
+        else:
+            bad_all += [(0, line) for _, line in vlib.KF_EVENTS]
+    vlib.KF_EVENTS.clear()
     nviol = vlib.report(prop, bad_all, wd)
     # ---- canary: the binding is demonstrated, not assumed
     ncanary = 0
